@@ -247,7 +247,82 @@ def run(pm, ctx):
     hier(pm, ctx, u)
 
 
+def _inline_soft_threshold(unit, e):
+    """value of an expression built with the helper soft_threshold(threshold, x) = sign(x) * max(|x| - threshold, 0), for the
+    two cases that can be decided: threshold = 0 (identity) and x = 0 (zero). Parameter order is read from the helper."""
+    if not (isinstance(e, ast.Call) and call_name(e) == "soft_threshold"):
+        return e if isinstance(e, (ast.Name, ast.Attribute, ast.Subscript)) else None
+    try:
+        hf = unit.func("soft_threshold")
+    except Exception:
+        return None
+    params = func_params(hf)
+    body = [s_ for s_ in hf.body if not (isinstance(s_, ast.Expr) and isinstance(s_.value, ast.Constant))]
+    if len(params) != 2 or len(body) != 1 or not isinstance(body[0], ast.Return):
+        return None
+    # which parameter is the thresholded value? the one under np.sign / np.abs
+    ret = body[0].value
+    signed = {norm_src(c.args[0]) for c in ast.walk(ret) if isinstance(c, ast.Call) and call_name(c) in ("np.sign", "np.abs") and c.args}
+    if len(signed) != 1 or list(signed)[0] not in params:
+        return None
+    xname = list(signed)[0]
+    tname = [p_ for p_ in params if p_ != xname][0]
+    if not canon_equal(ret, f"np.sign({xname}) * np.maximum(np.abs({xname}) - {tname}, 0)"):
+        return None
+    bound = {}
+    for i_, a in enumerate(e.args):
+        bound[params[i_]] = a
+    for k in e.keywords:
+        bound[k.arg] = k.value
+    if set(bound) != set(params):
+        return None
+    def is_zero(n):
+        return isinstance(n, ast.Constant) and n.value in (0, 0.0) and not isinstance(n.value, bool)
+    if is_zero(bound[tname]):
+        return bound[xname]
+    if is_zero(bound[xname]):
+        return "zero"
+    return None
+
+
+def _returns_inputs(ctx, u, fname, results_doc):
+    """every return of the operator must return computed results, never (copies of) its inputs: the hierarchical step is not the
+    identity even without penalty (it projects onto |theta| <= M ||beta||)"""
+    f = u.func(fname)
+    params = set(func_params(f))
+    for r in [n for n in ast.walk(f) if isinstance(n, ast.Return)]:
+        site = f"{fname}: return at line offset {r.lineno - f.lineno}"
+        vals = r.value.elts if isinstance(r.value, ast.Tuple) else [r.value]
+        bad = []
+        for v in vals:
+            core = v
+            while True:
+                if isinstance(core, ast.Call) and isinstance(core.func, ast.Attribute) and core.func.attr in ("copy", "astype") and not core.args:
+                    core = core.func.value
+                elif isinstance(core, ast.Call) and call_name(core) in ("np.copy", "np.array", "np.asarray") and core.args:
+                    core = core.args[0]
+                else:
+                    break
+            if isinstance(core, ast.Name) and core.id in params:
+                bad.append(norm_src(v))
+        if bad:
+            conds = [norm_src(p_.test) for p_ in _parents_of(r) if isinstance(p_, ast.If)]
+            ctx.violation("C05-c", u.relpath, fname, norm_src(r)[:120], f"a path{' (when ' + conds[0] + ')' if conds else ''} returns the inputs {bad} unchanged: the hierarchical "
+                          f"proximal step is not the identity, even for alpha = 0 it must enforce |theta| <= M ||beta||", line=r.lineno, site=f"{fname}: no shortcut around the operator")
+            return
+    ctx.ok("C05-c", f"{fname}: no shortcut around the operator", results_doc)
+
+
+def _parents_of(n):
+    n = getattr(n, "_parent", None)
+    while n is not None:
+        yield n
+        n = getattr(n, "_parent", None)
+
+
 def hier(pm, ctx, u):
+    _returns_inputs(ctx, u, "mlp_prox_grad", "every return yields computed (beta*, theta*)")
+    _returns_inputs(ctx, u, "group_mlp_prox_grad", "every return yields the assembled results of the elementary operator")
     f = u.func("mlp_prox_grad")
     qn = "mlp_prox_grad"
     vp, up, ap, Mp = func_params(f)[:4]
@@ -275,6 +350,23 @@ def hier(pm, ctx, u):
     expect("norm_v", [f"np.linalg.norm({v}, ord=2, axis=1, keepdims=True)", f"np.linalg.norm({v}, axis=1, keepdims=True)"], "norm_v is not the per-feature l2 norm of the skip weights")
     expect("x", [f"np.maximum(1 - a_s / norm_v, 0) / (1 + s * {Mp} ** 2)"], "x_s is not (1 - a_s/||v||)_+ / (1 + s M^2)")
     wdef = expect("w", [f"{Mp} * x * norm_v"], "w_s is not M x_s ||v||")
+    # intervals: the sorted magnitudes themselves (soft_threshold at 0 is the identity on non-negative values)
+    site = f"{qn}: intervals"
+    if "intervals" not in defs:
+        ctx.unrecognised("C05-c", site, "no local named intervals")
+    else:
+        val = _inline_soft_threshold(u, defs["intervals"].value)
+        if val is None:
+            ctx.unrecognised("C05-c", site, f"`{norm_src(defs['intervals'].value)[:60]}`")
+        elif val == "zero":
+            ctx.violation("C05-c", u.relpath, qn, norm_src(defs["intervals"])[:160], "the breakpoints are soft_threshold(threshold=<array>, x=0) = 0: the helper's arguments are "
+                          "(threshold, x); with all-zero breakpoints the active-set index is always 0 and the pair returned is feasible but not the minimiser",
+                          line=defs["intervals"].lineno, site=site)
+        elif canon_equal(val, "u_abs_sorted"):
+            ctx.ok("C05-c", site, "= u_abs_sorted")
+        else:
+            ctx.violation("C05-c", u.relpath, qn, norm_src(defs["intervals"])[:160], f"the breakpoints are {norm_src(val)[:60]}, not the sorted magnitudes of the hidden weights",
+                          line=defs["intervals"].lineno, site=site)
     expect("lower", ["np.concatenate([intervals, zeros], axis=1)"], "the breakpoint lower bounds are not (|u| sorted, 0)")
     expect("idx", ["np.sum(lower > w, axis=1, keepdims=True)"], "the breakpoint index is not the number of lower bounds above w_s")
     sdef = defs.get("s")
@@ -369,4 +461,7 @@ def controls(pm, tier):
     mut("np.minimum(soft_threshold(0, np.abs(u)), w_star)", "np.maximum(soft_threshold(0, np.abs(u)), w_star)", "C05-c", "theta* clipped from the wrong side")
     mut("    u_abs_sorted = np.sort(np.abs(u), axis=1)[:, ::-1]  # shape dxh", "    u_abs_sorted = np.sort(np.abs(u), axis=1)  # shape dxh", "C05-c", "hidden weights sorted ascending")
     mut("        group_W_star = linear_prox_grad(group_W.reshape((1, -1)), alpha)", "        group_W_star = linear_prox_grad(group_W, alpha)", "C05-b", "group rows shrunk one by one")
+    mut("    intervals = soft_threshold(0, u_abs_sorted)  # Shape dxh", "    intervals = soft_threshold(u_abs_sorted, 0)  # Shape dxh", "C05-c", "helper arguments swapped")
+    mut("def group_mlp_prox_grad(groups, W_skip, W1, alpha, M):\n", "def group_mlp_prox_grad(groups, W_skip, W1, alpha, M):\n    if alpha == 0:\n        return W_skip.copy(), W1.copy()\n", "C05-c",
+        "alpha == 0 shortcut skips the projection")
     return out
